@@ -96,8 +96,14 @@ def build(extra_cflags=(), tag=""):
         # prune old entries
         ents = sorted((e for e in os.scandir(CACHE) if e.is_dir()),
                       key=lambda e: e.stat().st_mtime, reverse=True)
+        import time
         for e in ents[KEEP:]:
-            shutil.rmtree(e.path, ignore_errors=True)
+            # never a build another run may still be importing from (runs in parallel, e.g. a background
+            # sweep beside a seeded-change run): only entries untouched for an hour
+            if time.time() - e.stat().st_mtime > 3600:
+                shutil.rmtree(e.path, ignore_errors=True)
+        for e in ents[25:]:
+            shutil.rmtree(e.path, ignore_errors=True)      # a hard cap on the disk used
         return dst
     finally:
         fcntl.flock(lock, fcntl.LOCK_UN)
